@@ -316,6 +316,7 @@ type batchFlowActor[T any] struct {
 	upstreamCredit   int64
 	downstreamDemand int64
 	timerActive      bool
+	completing       bool // true once upstream sent streamComplete; completion is propagated when the window is drained
 	schedRef         string
 	config           StageConfig
 	metrics          *stageMetrics
@@ -349,6 +350,11 @@ func (a *batchFlowActor[T]) Receive(rctx *actor.ReceiveContext) {
 
 	case *streamRequest:
 		a.downstreamDemand += msg.n
+		// Full windows held back for lack of demand can go out now.
+		a.drain(rctx)
+		if a.tryComplete(rctx) {
+			return
+		}
 		a.maybeRequestUpstream(rctx)
 
 	case *streamElement:
@@ -373,9 +379,7 @@ func (a *batchFlowActor[T]) Receive(rctx *actor.ReceiveContext) {
 				rctx.Self(), a.maxWait, actor.WithReference(a.schedRef))
 		}
 
-		if len(a.window) >= a.maxSize {
-			a.flush(rctx)
-		}
+		a.drain(rctx)
 		a.maybeRequestUpstream(rctx)
 
 	case *batchFlush:
@@ -383,15 +387,14 @@ func (a *batchFlowActor[T]) Receive(rctx *actor.ReceiveContext) {
 		if len(a.window) > 0 {
 			a.flush(rctx)
 		}
+		a.tryComplete(rctx)
 
 	case *streamComplete:
-		// Flush any remaining elements before propagating completion.
-		if len(a.window) > 0 {
-			a.flush(rctx)
-		}
-
-		rctx.Tell(a.downstream, &streamComplete{subID: a.subID})
-		rctx.Shutdown()
+		// Flush the remaining elements before propagating completion. When
+		// downstream demand is exhausted the actor stays alive and finishes from
+		// the streamRequest arm, so buffered elements are never dropped.
+		a.completing = true
+		a.tryComplete(rctx)
 
 	case *streamError:
 		rctx.Tell(a.downstream, msg)
@@ -407,15 +410,50 @@ func (a *batchFlowActor[T]) Receive(rctx *actor.ReceiveContext) {
 	}
 }
 
-// flush emits the current window as a single batch element to downstream,
-// provided demand is available.
+// batchSize returns the effective maximum batch size (at least 1).
+func (a *batchFlowActor[T]) batchSize() int {
+	if a.maxSize < 1 {
+		return 1
+	}
+	return a.maxSize
+}
+
+// drain emits full batches while downstream demand remains.
+func (a *batchFlowActor[T]) drain(rctx *actor.ReceiveContext) {
+	for a.downstreamDemand > 0 && len(a.window) >= a.batchSize() {
+		a.flush(rctx)
+	}
+}
+
+// tryComplete runs once upstream has completed: it emits what demand allows
+// and, when the window is empty, propagates completion downstream and shuts
+// the actor down. It reports whether the actor has completed.
+func (a *batchFlowActor[T]) tryComplete(rctx *actor.ReceiveContext) bool {
+	if !a.completing {
+		return false
+	}
+	for a.downstreamDemand > 0 && len(a.window) > 0 {
+		a.flush(rctx)
+	}
+	if len(a.window) > 0 {
+		return false
+	}
+	rctx.Tell(a.downstream, &streamComplete{subID: a.subID})
+	rctx.Shutdown()
+	return true
+}
+
+// flush emits at most maxSize elements from the head of the window as a single
+// batch element to downstream, provided demand is available. Elements that do
+// not fit stay in the window, in order.
 func (a *batchFlowActor[T]) flush(rctx *actor.ReceiveContext) {
-	if a.downstreamDemand <= 0 {
+	if a.downstreamDemand <= 0 || len(a.window) == 0 {
 		return
 	}
-	batch := make([]T, len(a.window))
-	copy(batch, a.window)
-	a.window = a.window[:0]
+	n := min(len(a.window), a.batchSize())
+	batch := make([]T, n)
+	copy(batch, a.window[:n])
+	a.window = a.window[:copy(a.window, a.window[n:])]
 	a.seqNo++
 	a.metrics.elementsOut.Add(1)
 	rctx.Tell(a.downstream, &streamElement{
@@ -427,7 +465,11 @@ func (a *batchFlowActor[T]) flush(rctx *actor.ReceiveContext) {
 }
 
 // maybeRequestUpstream refills upstream credit when it falls below the threshold.
+// No-op when upstream has already completed.
 func (a *batchFlowActor[T]) maybeRequestUpstream(rctx *actor.ReceiveContext) {
+	if a.completing {
+		return
+	}
 	available := a.config.InitialDemand - a.upstreamCredit - int64(len(a.window))
 	if available <= 0 {
 		return
